@@ -6,7 +6,13 @@
   kernels  section 2.2: RNG-free kernels recorded by the interpreted run are recomputed compiled and
            must agree to 1e-9.
 
-usage: probe_compiled.py cache <seed> <n_cases>   |   probe_compiled.py kernels <file.json>
+  callcache  the compiled call sampler as the programs use it (CallingMCMC.fit: per-chain likelihood cache ON): every
+           likelihood in the returned trace equals the compiled, uncached log_likelihood_alleles of that step's genotype
+           (relative 1e-12: the cache stores what the function computed, nothing is re-derived), and the same seed with
+           the cache OFF (mcmc_sampler(cache=False) from the same start) gives the identical trajectory and likelihoods.
+           Reads carry large counts so that |llk| reaches 1e3-1e6 and a loss of precision in cached values is visible.
+
+usage: probe_compiled.py cache <seed> <n_cases> [small]  |  probe_compiled.py kernels <file.json>  |  probe_compiled.py callcache <seed> <n_cases>
 Prints one JSON document.
 """
 import json
@@ -41,13 +47,91 @@ def gen_case(rng, big):
                 steps=rng.choice([50, 200]) if not big else 1500, seed=rng.randrange(2 ** 31), big=big)
 
 
-def probe_cache(seed, n_cases):
+def probe_callcache(seed, n_cases):
+    import numpy as np
+    from mchap.calling.classes import CallingMCMC
+    from mchap.calling import mcmc as cmcmc
+    from mchap.calling.likelihood import log_likelihood_alleles
+    from mchap.jitutils import seed_numba
+    rng = random.Random(seed)
+    out = {"cases": 0, "steps_compared": 0, "trajectory_compared": 0, "trajectory_skipped": 0, "max_abs_llk": 0.0, "mismatches": []}
+    for c in range(n_cases):
+        n_pos = rng.choice([1, 2, 3, 5])
+        n_al = [rng.choice([2, 2, 3]) for _ in range(n_pos)]
+        n_haps = rng.choice([2, 3, 5, 8])
+        haps = set()
+        while len(haps) < n_haps and len(haps) < int(np.prod(n_al)):
+            haps.add(tuple(rng.randrange(a) for a in n_al))
+        haplotypes = np.array(sorted(haps), dtype=np.int8)
+        n_haps = len(haplotypes)
+        ploidy = rng.choice([2, 4, 4, 6])
+        n_reads = rng.choice([1, 3, 8])
+        amax = max(n_al)
+        reads = np.zeros((n_reads, n_pos, amax))
+        for r in range(n_reads):
+            h = haplotypes[rng.randrange(n_haps)]
+            for j in range(n_pos):
+                if rng.random() < 0.15:
+                    reads[r, j, :] = np.nan
+                    continue
+                a = int(h[j]) if rng.random() < 0.9 else rng.randrange(n_al[j])
+                p = rng.choice([0.7, 0.9, 0.99])
+                reads[r, j, : n_al[j]] = (1 - p) / max(1, n_al[j] - 1)
+                reads[r, j, a] = p
+        scale = rng.choice([1, 10, 1000, 100000])
+        counts = np.array([rng.randint(1, 9) * scale for _ in range(n_reads)], dtype=np.int64)
+        F = rng.choice([0.0, 0.0, 0.1, 0.5])
+        freqs = None
+        if rng.random() < 0.5:
+            w = np.array([rng.choice([1, 2, 5, 20]) for _ in range(n_haps)], dtype=float)
+            freqs = w / w.sum()
+        steps = rng.choice([30, 80])
+        sd = rng.randrange(1, 2 ** 31 - 1)
+        step_type = rng.choice(["Gibbs", "Gibbs", "Metropolis-Hastings"])
+        info = {"case": c, "ploidy": ploidy, "n_haplotypes": n_haps, "n_pos": n_pos, "count_scale": scale, "inbreeding": F, "step_type": step_type, "seed": sd}
+        model = CallingMCMC(ploidy=ploidy, haplotypes=haplotypes, frequencies=freqs, inbreeding=F, steps=steps, chains=1, random_seed=sd, step_type=step_type)
+        start = np.sort(np.array([rng.randrange(n_haps) for _ in range(ploidy)], dtype=np.int64))
+        tr = model.fit(reads, read_counts=counts, initial=start.copy())
+        G = np.array(tr.genotypes)[0]
+        L = np.array(tr.llks)[0]
+        bad = None
+        for i in range(steps):
+            want = log_likelihood_alleles(reads, counts, haplotypes, np.sort(G[i]))
+            out["steps_compared"] += 1
+            out["max_abs_llk"] = max(out["max_abs_llk"], abs(float(want)))
+            if not (L[i] == want or abs(L[i] - want) <= 1e-12 * max(1.0, abs(want))):
+                bad = {"step": i, "trace_llk": float(L[i]), "recomputed": float(want)}
+                break
+        if bad:
+            out["mismatches"].append(dict(info, kind="trace_llk_not_the_likelihood", **bad))
+        # same seed, cache off, same start
+        try:
+            np.random.seed(sd)
+            seed_numba(sd)
+            g2, l2 = cmcmc.mcmc_sampler(genotype_alleles=start.copy(), haplotypes=haplotypes, reads=reads, read_counts=counts, inbreeding=F,
+                                        frequencies=freqs, n_steps=steps, cache=False, step_type=0 if step_type == "Gibbs" else 1)
+        except TypeError:
+            out["trajectory_skipped"] += 1
+        else:
+            if np.array_equal(np.sort(g2, axis=1)[0], np.sort(G, axis=1)[0]):
+                # the class seeds and starts the way this replay does (else the two runs are not comparable: skipped, not judged)
+                out["trajectory_compared"] += 1
+                if not (np.array_equal(np.sort(g2, axis=1), np.sort(G, axis=1)) and np.allclose(l2, L, rtol=1e-12, atol=0.0)):
+                    first = int(np.argmax(np.any(np.sort(g2, axis=1) != np.sort(G, axis=1), axis=1) | ~np.isclose(l2, L, rtol=1e-12, atol=0.0)))
+                    out["mismatches"].append(dict(info, kind="trajectory_depends_on_cache", first_differing_step=first))
+            else:
+                out["trajectory_skipped"] += 1
+        out["cases"] += 1
+    return out
+
+
+def probe_cache(seed, n_cases, small=False):
     import numpy as np
     from mchap.assemble.mcmc import DenovoMCMC
     rng = random.Random(seed)
     out = {"cases": 0, "big_cases": 0, "mismatches": []}
     for c in range(n_cases):
-        big = c % 8 == 7
+        big = c % 8 == 7 and not small
         case = gen_case(rng, big)
         traces = {}
         for thr in (-1, 0, 100, 10 ** 6):
@@ -119,6 +203,8 @@ def probe_kernels(path):
 
 if __name__ == "__main__":
     if sys.argv[1] == "cache":
-        print(json.dumps(probe_cache(int(sys.argv[2]), int(sys.argv[3]))))
+        print(json.dumps(probe_cache(int(sys.argv[2]), int(sys.argv[3]), small=len(sys.argv) > 4)))
+    elif sys.argv[1] == "callcache":
+        print(json.dumps(probe_callcache(int(sys.argv[2]), int(sys.argv[3]))))
     else:
         print(json.dumps(probe_kernels(sys.argv[2])))
